@@ -29,6 +29,9 @@ pub struct Case {
     /// query points: fractions of the covered span, and relative overshoots outside it
     pub queries: Vec<f64>,
     pub outside: Vec<f64>,
+    /// step budget: a run that ends with NeedLargerNMax still owns the dense output of the steps it took
+    #[serde(default)]
+    pub max_steps: Option<usize>,
 }
 
 fn not_enabled<T>(r: &Result<T, Error>) -> bool {
@@ -59,7 +62,7 @@ pub fn check(c: &Case) -> Outcome {
             _ => c.first_step.map(|f| f * len),
         },
         max_step: c.max_step.map(|f| f * len),
-        max_steps: None,
+        max_steps: c.max_steps,
         t_eval,
         dense,
     };
@@ -224,14 +227,14 @@ pub fn strategy() -> BoxedStrategy<Case> {
         (proptest::bool::weighted(0.85), proptest::option::weighted(0.3, places(10)), proptest::option::weighted(0.2, log10(-2.0, 0.0)), proptest::option::weighted(0.2, log10(-3.0, -0.5))),
         proptest::option::weighted(0.2, fr(0.05, 0.95)),
         any::<bool>(),
-        0u8..30,
+        (0u8..30, proptest::option::weighted(0.15, 3usize..60)),
         proptest::collection::vec(prop_oneof![6 => fr(0.0, 1.0), 1 => Just(0.0), 1 => Just(1.0)], 1..12),
         proptest::collection::vec(log10(-9.0, 0.5), 1..4),
     )
-        .prop_map(|(prob, span, method, (rtol, atol), (dense, t_eval, max_step, first_step), terminal_at, analytic_jac, z, queries, outside)| {
+        .prop_map(|(prob, span, method, (rtol, atol), (dense, t_eval, max_step, first_step), terminal_at, analytic_jac, (z, max_steps), queries, outside)| {
             let stiff = prob.blocks.iter().any(|b| matches!(b, Block::Real { lam, .. } if *lam < -20.0));
             let method = if stiff && !method.implicit() { if method == Meth::RK4 || method == Meth::RK23 { Meth::BDF } else { Meth::RADAU } } else { method };
-            Case { prob, span, method, rtol, atol, dense, t_eval, max_step, first_step, terminal_at, analytic_jac, zero_length: z == 0, queries, outside }
+            Case { prob, span, method, rtol, atol, dense, t_eval, max_step, first_step, terminal_at, analytic_jac, zero_length: z == 0, queries, outside, max_steps }
         })
         .boxed()
 }
@@ -244,7 +247,7 @@ pub fn run(ctx: &Ctx, known: &[Known]) -> Report {
     let stats = run_generated(ctx, "C06", "gen", &strategy, &check, cases, known);
     Report {
         id: "C06".into(),
-        rule: "cases = closed-form problems (n<=5) and mildly stiff linear ones (rates to 1e4, Radau/BDF) x spans x six methods x tolerances x dense on/off x optional grid-relative t_eval, max_step, first_step, terminal event, zero-length run. The accepted-step grid and states are observed through one events() call per step; oracle: sol_span = [x0, last step end], sol(step end) = state, continuity just after every interior boundary, sol(reported sample) = sample, sol/sol_many Ok and equal for generated interior points, OutOfRange for points outside by more than 1e-9(1+|t|), NotEnabled when disabled. (The per-step interpolant handed to SolOut callbacks is checked on every callback of every history in C19.) Non-trivial = at least 3 accepted steps. Distinct = distinct canonical JSON.".into(),
+        rule: "cases = closed-form problems (n<=5) and mildly stiff linear ones (rates to 1e4, Radau/BDF) x spans x six methods x tolerances x dense on/off x optional grid-relative t_eval, max_step, first_step, max_steps (a run ending with NeedLargerNMax keeps the dense output of the steps it took), terminal event, zero-length run. The accepted-step grid and states are observed through one events() call per step; oracle: sol_span = [x0, last step end], sol(step end) = state, continuity just after every interior boundary, sol(reported sample) = sample, sol/sol_many Ok and equal for generated interior points, OutOfRange for points outside by more than 1e-9(1+|t|), NotEnabled when disabled. (The per-step interpolant handed to SolOut callbacks is checked on every callback of every history in C19.) Non-trivial = at least 3 accepted steps. Distinct = distinct canonical JSON.".into(),
         assumptions: vec![
             "end-point agreement to 1e-10*(1+|y|) + 8*max|f|*ulp(t) (a time is only known to an ulp); continuity probe at t + max(2.5e-12, 8 ulp) with bound 2*max|f|*delta".into(),
             "'clearly outside' = farther than 1e-9*(1+|t|) from the covered span".into(),
